@@ -105,9 +105,10 @@ theorem correct_still_accepted_aux (env : Env L) (s s' t : Node L) (b' b : Block
     (hne : s.headers ≠ []) (hix : Indexed s.headers)
     (hrej : addBlock env s b' = (s', some e))
     (hacc : addBlock env s b = (t, none))
-    (hsame : s'.headers = s.headers ∨ b'.hdr.hash = b.hdr.hash) :
+    (hsame : s'.headers = s.headers ∨ b'.hdr.hash = b.hdr.hash)
+    (c3 : s'.ledger = s.ledger) :
     addBlock env s' b = (t, none) := by
-  obtain ⟨c1, c2, c3, c4, c5⟩ := reject_changes_nothing_aux env s s' b' e hne hix hrej
+  obtain ⟨c1, c2, _, c4, c5⟩ := reject_changes_nothing_aux env s s' b' e hne hix hrej
   rcases c5 with c5 | ⟨c5, c6, _⟩
   · have : s' = s := node_ext _ _ c1 c2 c5 c3 c4
     rw [this]; exact hacc
